@@ -3,6 +3,12 @@
 (* force linking of the driver modules (each registers its commands) *)
 let () = Drv_check.(ignore of_error)
 let () = Dfa_io.(ignore of_inp)
+let () = Drv_emit.(ignore emit_linked)
+let () = Drv_dot.(ignore linked)
+let () = Drv_amb.(ignore linked)
+let () = Drv_driver.(ignore linked)
+let () = Drv_minimize.(ignore of_min_outcome)
+let () = Drv_regex.(ignore of_regex)
 let () = Drv_parse.(ignore of_grammar)
 
 let () =
